@@ -377,6 +377,12 @@ func c18Metadata(r *core.Run, idx int, rng *rand.Rand) {
 	const wl = "metadata_documents"
 	org := &provider.Organisation{Name: "Org " + legalXMLString(rng, 4), DisplayName: "Display " + legalXMLString(rng, 4), URL: "https://org.example/" + plainString(rng, 4)}
 	o := env.Opts{Org: org, MetaSigAlg: []string{"", spsim.AlgRSASHA256}[idx%2]}
+	host := ""
+	if idx%3 == 1 {
+		// a host-derived entity ID: internationalised names in their ASCII form, names with runs of hyphens
+		o.HostPath = []string{"", "/saml", "/a--b"}[rng.Intn(3)]
+		host = []string{"xn--bcher-kva.example", "my--company.example", "xn--80ak6aa92e.example:8443", "a---b.idp.example", "plain.idp.example"}[rng.Intn(5)]
+	}
 	e := env.Static(o)
 	faultAt := idx % 4 // which of the requests meets the key fault (3 = none)
 	fk := []string{sim.FaultError, sim.FaultTimeout, sim.FaultNilRecord, sim.FaultKeyNoCert, sim.FaultCertNoKey, sim.FaultPoolClosed}[rng.Intn(6)]
@@ -392,8 +398,8 @@ func c18Metadata(r *core.Run, idx int, rng *rand.Rand) {
 				return ""
 			}
 		}
-		call := e.Do(env.Req{Path: env.PathMetadata, Tag: tag})
-		class := fmt.Sprintf("metadata|request_%d|fault_at=%d|signed=%v", k, faultAt, o.MetaSigAlg != "")
+		call := e.Do(env.Req{Path: env.PathMetadata, Tag: tag, Host: host})
+		class := fmt.Sprintf("metadata|request_%d|fault_at=%d|signed=%v|host_derived=%v", k, faultAt, o.MetaSigAlg != "", host != "")
 		desc := map[string]any{"request": k, "fault_at_request": faultAt, "fault": fk, "failing_operation": op, "organisation": org}
 		viol := func(clause, reason string) {
 			r.Violate(core.Violation{Clause: clause, Class: class, Reason: reason, Workload: wl, Index: idx, Case: desc, Observed: call.Describe()})
